@@ -340,9 +340,9 @@ impl Bdd {
                         );
                         #[cfg(feature = "adhoccountmodels")]
                         let (lo_exp, hi_exp) = if lodepth > hidepth {
-                            (1, 2usize.pow((lodepth - hidepth) as u32))
+                            (1, Self::pow2_saturating(lodepth - hidepth))
                         } else {
-                            (2usize.pow((hidepth - lodepth) as u32), 1)
+                            (Self::pow2_saturating(hidepth - lodepth), 1)
                         };
                         #[cfg(not(feature = "adhoccountmodels"))]
                         let (lo_exp, hi_exp) = (0, 0);
@@ -351,13 +351,13 @@ impl Bdd {
                             new_term,
                             (
                                 (
-                                    lo_counts.cmodels * lo_exp + hi_counts.cmodels * hi_exp,
-                                    lo_counts.models * lo_exp + hi_counts.models * hi_exp,
+                                    Self::count_saturating(lo_counts.cmodels, lo_exp, hi_counts.cmodels, hi_exp),
+                                    Self::count_saturating(lo_counts.models, lo_exp, hi_counts.models, hi_exp),
                                 )
                                     .into(),
                                 (
-                                    lo_paths.cmodels + hi_paths.cmodels,
-                                    lo_paths.models + hi_paths.models,
+                                    lo_paths.cmodels.saturating_add(hi_paths.cmodels),
+                                    lo_paths.models.saturating_add(hi_paths.models),
                                 )
                                     .into(),
                                 std::cmp::max(lodepth, hidepth) + 1,
@@ -460,6 +460,20 @@ impl Bdd {
         }
     }
 
+    /// 2^exp, or `usize::MAX` if that does not fit (diagrams deeper than the machine word: counts saturate instead of overflowing).
+    fn pow2_saturating(exp: usize) -> usize {
+        u32::try_from(exp)
+            .ok()
+            .and_then(|e| 2usize.checked_pow(e))
+            .unwrap_or(usize::MAX)
+    }
+
+    /// `lo * lo_fac + hi * hi_fac`, saturating at `usize::MAX`.
+    fn count_saturating(lo: usize, lo_fac: usize, hi: usize, hi_fac: usize) -> usize {
+        lo.saturating_mul(lo_fac)
+            .saturating_add(hi.saturating_mul(hi_fac))
+    }
+
     fn modelcount_memoization(&self, term: Term) -> CountNode {
         if term == Term::TOP {
             (ModelCounts::top(), ModelCounts::top(), 0)
@@ -480,17 +494,19 @@ impl Bdd {
                 } else {
                     lo_exp = (hidepth - lodepth) as u32;
                 }
+                let (lo_fac, hi_fac) = (
+                    Self::pow2_saturating(lo_exp as usize),
+                    Self::pow2_saturating(hi_exp as usize),
+                );
                 (
                     (
-                        lo_counts.cmodels * 2usize.pow(lo_exp)
-                            + hi_counts.cmodels * 2usize.pow(hi_exp),
-                        lo_counts.models * 2usize.pow(lo_exp)
-                            + hi_counts.models * 2usize.pow(hi_exp),
+                        Self::count_saturating(lo_counts.cmodels, lo_fac, hi_counts.cmodels, hi_fac),
+                        Self::count_saturating(lo_counts.models, lo_fac, hi_counts.models, hi_fac),
                     )
                         .into(),
                     (
-                        lo_paths.cmodels + hi_paths.cmodels,
-                        lo_paths.models + hi_paths.models,
+                        lo_paths.cmodels.saturating_add(hi_paths.cmodels),
+                        lo_paths.models.saturating_add(hi_paths.models),
                     )
                         .into(),
                     std::cmp::max(lodepth, hidepth) + 1,
